@@ -753,6 +753,11 @@ impl StorageEngine {
 
     /// Add a member with score to a sorted set - NO access time tracking
     pub fn zadd(&self, db: DatabaseIndex, key: Key, member: Vec<u8>, score: f64) -> Result<bool> {
+        // A score that is not a number is never stored (it cannot be ordered or removed)
+        if score.is_nan() {
+            return Err(FerrousError::Command(CommandError::InvalidFloatValue));
+        }
+        
         let shard = self.get_shard(db, &key)?;
         let mut shard_guard = shard.write().unwrap();
         
@@ -951,6 +956,10 @@ impl StorageEngine {
     }
     
     pub fn zincrby(&self, db: DatabaseIndex, key: Key, member: Vec<u8>, increment: f64) -> Result<f64> {
+        if increment.is_nan() {
+            return Err(FerrousError::Command(CommandError::InvalidFloatValue));
+        }
+        
         let shard = self.get_shard(db, &key)?;
         let mut shard_guard = shard.write().unwrap();
         
@@ -958,7 +967,13 @@ impl StorageEngine {
             match &mut stored_value.value {
                 Value::SortedSet(skiplist) => {
                     let new_score = match skiplist.get_score(&member) {
-                        Some(curr_score) => curr_score + increment,
+                        Some(curr_score) => {
+                            // inf + -inf is NaN: refused, the old score stays
+                            if curr_score.is_infinite() && increment.is_infinite() && curr_score != increment {
+                                return Err(FerrousError::Command(CommandError::InvalidFloatValue));
+                            }
+                            curr_score + increment
+                        }
                         None => increment,
                     };
                     
